@@ -1154,3 +1154,72 @@ def shared_cache_slots(ctx: Ctx, rule: str, short: str, cname: str, names):
                      "whichever of the attributes is read first is what the others return")
     else:
         ctx.held(rule, where, f"{n} factory-made class attributes; none of {list(names)} shares a cache slot", "")
+
+
+# --------------------------------------------------------------------------- a key one reader takes as nullable, another dereferences
+def _nullable_reads(fn: ast.AST, family: str):
+    """(tolerant, intolerant) reads of string keys on dicts of one FAMILY inside `fn`: `d.get(k) or <default>` states the
+    belief that k may be present with a null value; `d.get(k, <literal default>).x` / `[...]` relies on the default, which
+    does not apply to a key that IS present with null.  `d` belongs to the family when its expression (locals resolved)
+    mentions `family`."""
+    from ..stmts import resolver
+    from ..symex import u
+
+    res = resolver(fn, multi=True)
+    parent = {c: n for n in ast.walk(fn) for c in ast.iter_child_nodes(n)}
+    # a local bound to a tolerant read is itself a member of the family (order = shim.get("order") or {})
+    tol, intol = [], []
+    for n in ast.walk(fn):
+        if not (isinstance(n, ast.Call) and isinstance(n.func, ast.Attribute) and n.func.attr == "get" and n.args and isinstance(n.args[0], ast.Constant) and isinstance(n.args[0].value, str)):
+            continue
+        try:
+            recv = " | ".join(u(v) for v in res(n.func.value))
+        except Exception:
+            recv = u(n.func.value)
+        if family not in recv:
+            continue
+        k, p = n.args[0].value, parent.get(n)
+        if len(n.args) == 1 and not n.keywords and isinstance(p, ast.BoolOp) and isinstance(p.op, ast.Or) and p.values[0] is n:
+            tol.append((k, n))
+        elif len(n.args) == 2 and isinstance(n.args[1], (ast.Dict, ast.List, ast.Tuple)) and isinstance(p, (ast.Attribute, ast.Subscript)) and p.value is n:
+            intol.append((k, n))
+    return tol, intol
+
+
+def nullable_key_agreement(ctx: Ctx, rule: str = "nullable-key", family: str = "_dimension_transforms_dict"):
+    """Contradiction rule over the readers of the dimension-transforms dict: if one reader writes `d.get(k) or {}` (k may be
+    null - `"order": None` means "no order transform") and another dereferences `d.get(k, {})`, the second raises
+    AttributeError / TypeError on exactly the input the first was written for."""
+    from ..loader import AnalysisError
+    from ..symex import u
+
+    ctl = ast.parse("def a(self):\n    return self._dimension_transforms_dict.get('order') or {}\ndef b(self):\n    shim = copy.deepcopy(self._dimension_transforms_dict)\n    return shim.get('order', {}).get('element_ids')\n")
+    t0, _ = _nullable_reads(ctl.body[0], family)
+    _, i1 = _nullable_reads(ctl.body[1], family)
+    if [k for k, _n in t0] != ["order"] or [k for k, _n in i1] != ["order"]:
+        raise AnalysisError(f"{rule}: the positive control is no longer recognised")
+    tol, intol = {}, {}
+    nfn = 0
+    for m in ctx.repo.all_members():
+        if not m.cls.module.short.startswith("dimension"):
+            continue
+        nfn += 1
+        t, i = _nullable_reads(m.node, family)
+        for k, n in t:
+            tol.setdefault(k, []).append(f"{m.cls.module.short}::{m.cls.name}.{m.name}")
+        for k, n in i:
+            intol.setdefault(k, []).append((f"{m.cls.module.short}::{m.cls.name}.{m.name}", u(parent_expr(m.node, n))[:90]))
+    ctx.count("readers scanned for null-tolerance", nfn)
+    hits = 0
+    for k in sorted(tol):
+        for where, text in intol.get(k, []):
+            hits += 1
+            ctx.violated(rule, f"{where} [key {k!r}]", text, f"`.get({k!r}) or {{}}` as in {tol[k][0]}", f"a transforms dict carrying {k!r}: null (no such transform) raises here, while the other reader takes it as absent")
+    if not hits:
+        ctx.held(rule, "dimension.py [readers of the dimension transforms]", f"nullable keys {sorted(tol)}: no reader relies on a .get() default for them", "readers of one key agree on whether it may be null")
+    ctx.require_min("readers scanned for null-tolerance", 50)
+
+
+def parent_expr(fn: ast.AST, n: ast.AST) -> ast.AST:
+    parent = {c: p for p in ast.walk(fn) for c in ast.iter_child_nodes(p)}
+    return parent.get(n, n)
